@@ -57,8 +57,11 @@ class StoreModel:
                         for x in ast.walk(fn):
                             if isinstance(x, ast.Attribute) and x.attr.startswith("_") and not x.attr.startswith("__") and x.attr in c.methods:
                                 referenced_elsewhere.add(x.attr)
+            from ..repo import inline_attr_chain_aliases
             for name, fn in c.methods.items():
                 new = inline_private_calls(self.repo, c, fn)
+                # `execute = self.dbConn.execute; execute(sql, params)` is `self.dbConn.execute(sql, params)`
+                new = inline_attr_chain_aliases(new)
                 self.fns[(c.qname, name)] = new
             for name in c.methods:
                 if name.startswith("_") and not name.startswith("__") and name in called_inside and name not in referenced_elsewhere:
@@ -101,19 +104,45 @@ class StoreModel:
             return a[0]
         return None
 
-    def _strconsts(self, g):
+    def _strconsts(self, g, c=None):
         """var -> set of constant strings reaching each node (None = unknown)"""
+        ev = Evaluator(self.repo, c.module, c) if c is not None else None
+
+        def value_of(v, st):
+            """set of constant strings an expression may evaluate to (concatenations of literals, class constants and
+            locals already known), or None"""
+            if isinstance(v, ast.Constant) and isinstance(v.value, str):
+                return frozenset([v.value])
+            if isinstance(v, ast.Name):
+                return st.get(v.id)
+            if isinstance(v, ast.BinOp) and isinstance(v.op, ast.Add):
+                l, r = value_of(v.left, st), value_of(v.right, st)
+                if l is None or r is None or len(l) * len(r) > 8:
+                    return None
+                return frozenset(a + b for a in l for b in r)
+            if isinstance(v, ast.BinOp) and isinstance(v.op, ast.Mod) and isinstance(v.right, (ast.Constant, ast.Tuple)):
+                l = value_of(v.left, st)
+                parts = v.right.elts if isinstance(v.right, ast.Tuple) else [v.right]
+                rs = [value_of(x, st) for x in parts]
+                if l is not None and len(l) == 1 and all(x is not None and len(x) == 1 for x in rs):
+                    try:
+                        return frozenset([list(l)[0] % tuple(list(x)[0] for x in rs)])
+                    except Exception:
+                        return None
+                return None
+            if ev is not None:
+                a = alts(ev.ev(v))
+                if a and len(a) == 1 and isinstance(a[0], str):
+                    return frozenset([a[0]])
+            return None
+
         def transfer(node, st, kind):
             s = node.stmt
             if node.kind == "stmt" and isinstance(s, ast.Assign) and kind != "exc":
                 new = dict(st)
                 for t in s.targets:
                     if isinstance(t, ast.Name):
-                        v = s.value
-                        if isinstance(v, ast.Constant) and isinstance(v.value, str):
-                            new[t.id] = frozenset([v.value])
-                        else:
-                            new[t.id] = None
+                        new[t.id] = value_of(s.value, st)
                 return new
             return st
 
@@ -129,7 +158,7 @@ class StoreModel:
 
     def _scan(self, c, name, fn):
         g = self.cfg(c, name)
-        sc = self._strconsts(g)
+        sc = self._strconsts(g, c)
         effs = {}
         for n in g.live:
             lst = []
@@ -147,6 +176,19 @@ class StoreModel:
                             continue
                         st = sql.parse(text)
                         params = call.args[1] if len(call.args) > 1 else None
+                        if isinstance(params, ast.Name):
+                            # a local bound once (a helper's parameter after inlining): the tuple it was bound to
+                            defs = [a_.value for a_ in ast.walk(fn) if isinstance(a_, ast.Assign) and len(a_.targets) == 1 and isinstance(a_.targets[0], ast.Name) and a_.targets[0].id == params.id]
+                            if len(defs) == 1 and params.id not in params_of(fn):
+                                params = defs[0]
+                        if isinstance(params, ast.Call) and isinstance(params.func, ast.Name) and params.func.id == "tuple" and len(params.args) == 1 and isinstance(params.args[0], (ast.Tuple, ast.List)):
+                            params = params.args[0]
+                        if f.attr == "executemany" and params is not None:
+                            # one execution per element: the parameters are the element expression
+                            if isinstance(params, (ast.GeneratorExp, ast.ListComp)):
+                                params = params.elt
+                            elif isinstance(params, (ast.List, ast.Tuple)) and params.elts:
+                                params = params.elts[0]
                         self.stmts.append((c, name, n, st, params))
                         if st.verb == "CREATE_TABLE":
                             self.tables[st.table] = st
@@ -389,6 +431,27 @@ def binding_of(d, node, expr, fn):
     if isinstance(expr, ast.IfExp):
         # python2 compatibility idiom `buffer(x) if sys.version_info < (2,7) else x`
         return binding_of(d, node, expr.orelse, fn)
+    # a variable of a comprehension / generator (`((1, k) for k in keys)`) stands for an element of what it iterates over
+    comp = {}
+    other_stores = set()
+    for x in ast.walk(fn):
+        if isinstance(x, ast.comprehension):
+            for t in ast.walk(x.target):
+                if isinstance(t, ast.Name):
+                    comp[t.id] = x.iter
+        elif isinstance(x, (ast.Assign, ast.AugAssign, ast.For, ast.With)):
+            for t in (x.targets if isinstance(x, ast.Assign) else [x.target] if isinstance(x, (ast.AugAssign, ast.For)) else [i.optional_vars for i in x.items if i.optional_vars is not None]):
+                other_stores |= {y.id for y in ast.walk(t) if isinstance(y, ast.Name)}
+    comp = {k_: v_ for k_, v_ in comp.items() if k_ not in other_stores and k_ not in ps}
+    if comp and any(isinstance(y, ast.Name) and y.id in comp for y in ast.walk(expr)):
+        import copy as _copy
+
+        class _S(ast.NodeTransformer):
+            def visit_Name(self, nd):
+                if nd.id in comp and isinstance(nd.ctx, ast.Load):
+                    return ast.copy_location(_copy.deepcopy(comp[nd.id]), nd)
+                return nd
+        expr = _S().visit(_copy.deepcopy(expr))
     src = d.expr_sources(node, expr)
     idx = tuple(sorted(ps.index(s[1]) for s in src if s[0] == "param" and s[1] in ps))
     chain = []
